@@ -4,6 +4,16 @@ mod orchestrator;
 mod bencode;
 mod writer;
 mod solver;
+#[cfg(lbfs_torrent_bootstrap_verif)]
+pub mod verif_shim;
+#[cfg(lbfs_torrent_bootstrap_verif)]
+pub mod verif_api {
+    //! re-exports of crate-internal items for the verification harness
+    pub use crate::finder::*;
+    pub use crate::orchestrator::{OrchestrationPiece, OrchestrationPieceFile};
+    pub use crate::solver::{balance, run, PieceMatchResult, PieceSolver};
+    pub use crate::writer::FileWriter;
+}
 
 pub use orchestrator::OrchestratorOptions;
 pub use orchestrator::start;
